@@ -142,6 +142,65 @@ def h_nontext():
     return fn, types
 
 
+POSITIONS = ["%s", "10:%s", "10:30:%s", "%s:30", "10:30:15.%s", "Jan %s", "%s Jan 2003", "2003-09-%s", "10h%sm", "%s pm", "2003-09-25 10:49 +%s", "%s/%s/%s"]
+TAILS = ["", "\u00b2", ",1.1", ".1.1", "a", "\u0663", ".", ",", "\u00bd", ":", "e5", "_1"]
+LENGTHS = [26, 40, 200]
+
+
+def h_prompt(form):
+    """Prompt termination on adversarial concrete shapes: a long digit run with an odd tail in every field position,
+    as str / bytes / stream.  Position, tail and length are pinned per path; the native run is bounded by 10 s of CPU
+    time (ITIMER_VIRTUAL) - the clean parser needs milliseconds - and must end in a datetime, ParserError or OverflowError."""
+    import dateutil.parser._parser as P
+    import io
+    import signal
+    types = dict(pi=int, ti=int, li=int, fuzzy=bool)
+
+    class _TooSlow(BaseException):
+        pass
+
+    def fn(ctx, pi, ti, li, fuzzy):
+        ctx.assume(S.within(pi, 0, len(POSITIONS) - 1))
+        ctx.assume(S.within(ti, 0, len(TAILS) - 1))
+        ctx.assume(S.within(li, 0, len(LENGTHS) - 1))
+        pi, ti, li, fuzzy = ctx.concrete(pi), ctx.concrete(ti), ctx.concrete(li), ctx.concrete(fuzzy)
+        if ctx.symbolic:
+            return None
+        tok = "1" * LENGTHS[li] + TAILS[ti]
+        text = POSITIONS[pi].replace("%s", tok)
+        if form == "bytes":
+            arg = text.encode("utf-8")
+        elif form == "stream":
+            arg = io.StringIO(text)
+        else:
+            arg = text
+        key = "prompt:%s:%d:%d" % (form, pi, ti)
+
+        def onalarm(signum, frame):
+            raise _TooSlow()
+        with ctx.untraced():
+            old = signal.signal(signal.SIGVTALRM, onalarm)
+            signal.setitimer(signal.ITIMER_VIRTUAL, 10.0)
+            try:
+                try:
+                    r = P.parse(arg, fuzzy=fuzzy)
+                    ok = isinstance(r, datetime.datetime)
+                finally:
+                    signal.setitimer(signal.ITIMER_VIRTUAL, 0)
+                    signal.signal(signal.SIGVTALRM, old)
+                ctx.check(ok, "parse returned a %s" % type(r).__name__, key=key + ":shape")
+            except (P.ParserError, OverflowError):
+                pass
+            except _TooSlow:
+                ctx.fail("parse(%r...) [%d chars, %s] did not finish within 10 s of CPU time" % (text[:24], len(text), form), key=key + ":slow")
+            except chx.Violation:
+                raise
+            except Exception as e:
+                ctx.fail("%s escapes from parse(%r...): %s" % (type(e).__name__, text[:24], str(e)[:60]), key=key + ":escapes-" + type(e).__name__)
+        return None
+    return fn, types
+
+
 OPTS = [dict(), dict(fuzzy=True), dict(fuzzy_with_tokens=True), dict(dayfirst=True), dict(yearfirst=True), dict(ignoretz=True),
         dict(dayfirst=True, yearfirst=True)]
 
@@ -149,6 +208,12 @@ OPTS = [dict(), dict(fuzzy=True), dict(fuzzy_with_tokens=True), dict(dayfirst=Tr
 def cells(tier):
     q = tier == "quick"
     cs = [Cell(M, "h_nontext", {}, budget_s=60)]
+    for form in ("str", "bytes", "stream"):
+        cs.append(Cell(M, "h_prompt", dict(form=form), budget_s=200 if q else 900, per_path_s=60))
+    # the documented result shapes with nothing to skip
+    for n in ("iso-date", "compact8", "hms-labels", "iso-T", "us-slash"):
+        cs.append(Cell(M, "h_total", dict(name=n, options=dict(fuzzy_with_tokens=True)), name="total[%s|fuzzy_with_tokens]" % n, budget_s=120, per_path_s=30,
+                       max_violations=20))
     names = list(STRESS)
     c02names = [n for n in c02.TEMPLATES if n.split("-")[-1] not in c02.MONTHS[1:]]
     for n in names + c02names:
@@ -165,10 +230,12 @@ def cells(tier):
 ASSUMPTIONS = c02.ASSUMPTIONS[:3] + [
     "every digit of every numeric field is an UNCONSTRAINED solver variable 0..9 (month 13, day 32, hour 25, minute 61, year 0, 30-digit fields are just solver cases); "
     "field positions, lengths (1..40 digits) and separators are template (cell) parameters",
+    "prompt-termination cells: 12 field positions x 12 tails x 3 lengths x fuzzy x str/bytes/stream, pinned per path, run natively under a 10 s CPU-time alarm",
     "determinism / statelessness is checked by calling parse twice with the same symbolic text inside one path",
     "OverflowError and ParserError are both 'rejected' (CrossHair's datetime model reports an out-of-range year as ValueError where CPython raises OverflowError for huge ints)",
 ]
-OUTSIDE = ["arbitrary Unicode text, NUL handling, inf/nan words, letters inside numbers", "tzinfos option", "byte and stream inputs"]
+OUTSIDE = ["arbitrary Unicode text, NUL handling, inf/nan words, letters inside numbers (beyond the listed adversarial tails)", "tzinfos option",
+           "byte and stream inputs in the symbolic cells (the prompt-termination cells run str / bytes / stream natively)"]
 
 
 def run(tier, seed, jobs):
